@@ -1,9 +1,10 @@
 /-
 Driver commands of the buffered reader stack (stream `bufr`).
 
-`bufr.calls  cap=N data=<gb> sched=<l|lxk,...> eofdata=0|1 grow=<c:c',...> calls=b,f:N,r:N,a`
-    one token per call: `<call>:<result>:<Count()>:<Buffered()>`
-`bufr.file   cap=N file=<hex> sched=.. eofdata=.. oracle=.. grow=.. maxoff=N prog=r,k,..`
+`bufr.calls  cap=N aligned=0|1 data=<gb> sched=<l|lxk,...> eofdata=0|1 grow=<c:c',...> calls=b,f:N,r:N,a`
+    one token per call: `<call>:<result>:<Count()>:<Buffered()>`, then `q:<l|lxk,...>`: the `len p` of every
+    Read the underlying reader received, in call order
+`bufr.file   cap=N aligned=0|1 file=<hex> sched=.. eofdata=.. oracle=.. grow=.. maxoff=N prog=r,k,..`
     `open:<version>:<comp>:<count>` | `open-err:<kind>`, then per op `ok:<gb>:<count>` | `ok:<count>` | `err:<kind>:<count>`
     (the program goes on after an error: the state after a failed call is modelled too)
 `bufr.stream file=<hex> oracle=.. prog=r,k,..`
@@ -49,8 +50,19 @@ def underOf (a : Args) (data : Bytes) : Option Under := do
   let ed ← a.nat? "eofdata"
   pure { rem := data, sched := sched, eofData := ed != 0 }
 
+/-- run-length wire form of a list of naturals: `l` or `lxk` -/
+def rleStr (l : List Nat) : String :=
+  let rec go : List Nat → Option (Nat × Nat) → List String → List String
+    | [], none, acc => acc.reverse
+    | [], some (v, k), acc => ((if k = 1 then toString v else s!"{v}x{k}") :: acc).reverse
+    | x :: xs, none, acc => go xs (some (x, 1)) acc
+    | x :: xs, some (v, k), acc =>
+      if x = v then go xs (some (v, k + 1)) acc
+      else go xs (some (x, 1)) ((if k = 1 then toString v else s!"{v}x{k}") :: acc)
+  String.intercalate "," (go l none [])
+
 def runBufCalls (grow : Nat → Nat) : CRd → List String → List String
-  | _, [] => []
+  | c, [] => ["q:" ++ rleStr c.rd.under.reqs.reverse]
   | c, call :: rest =>
     let tail (c' : CRd) := s!":{c'.count}:{c'.rd.pend.length}"
     match call.splitOn ":" with
@@ -82,7 +94,8 @@ def bufrCalls (a : Args) : String :=
     | none => "bad-op"
     | some u =>
       String.intercalate " "
-        (runBufCalls grow { rd := Rd.new cap u, count := 0 } (splitList (a.getD "calls" "")))
+        (runBufCalls grow { rd := Rd.make (a.getD "aligned" "0" != "0") cap u, count := 0 }
+          (splitList (a.getD "calls" "")))
   | _, _, _ => "bad-op"
 
 def runBufProg (cmp : Compression) (grow : Nat → Nat) (maxOff : Nat) : FileRd → List String → List String
@@ -109,7 +122,7 @@ def bufrFile (a : Args) : String :=
     match underOf a file with
     | none => "bad-op"
     | some u =>
-      match (FileRd.new file cap u).open with
+      match (FileRd.new file cap u (a.getD "aligned" "0" != "0")).open with
       | (.error e, _) => "open-err:" ++ e.toString
       | (.ok (v, ct), fr) =>
         if v = 1 then "unsupported-version" else
